@@ -33,6 +33,12 @@ P = {
  "C13": (True, "seq", "runtime monitor of the sweep rule at every CleanUp (entries older than one tick must be gone and reported)",
    "Held on the explored sequences: TTLs from ns to years, clock jumps up to many wheel revolutions; entries whose deadline was moved backwards are exempt (the property's proviso).",
    "Tick = 2^30 ns; sequential schedules plus writer/maintenance clock-parked schedules.", "4/C13"),
+ "C19": (True, "seq", "round-trip differential monitor: source cache driven by a generated sequence, SaveCacheTo, clock offset, LoadCacheFrom into an empty cache with equal/larger/smaller maximum",
+   "Held on the explored round trips: loaded entries are a subset of the saved unexpired ones with identical value, weight and ExpiresAtNano (RefreshableAtNano identical when in the future, due otherwise); everything is loaded when it fits.",
+   "Calculators and weigher are pure functions of key/value so source and target agree; gob encoding itself is trusted.", "4/C19"),
+ "C20": (True, "seq", "differential runtime monitor: Stats() snapshot compared with model tallies after every operation; counters sampled for monotonicity under concurrency",
+   "Held on the explored histories: hits/misses per counting operation, load successes/failures per loader invocation by outcome, evictions/weight paired with Overflow/Expiration events.",
+   "A panicking compute function is not counted as a lookup (the call does not complete).", "4/C20"),
 }
 NOT_YET = {
  "C02": "check under construction in this session (concurrent engine)",
